@@ -204,21 +204,29 @@ def run(chk):
         for k, v in s.items():
             stats[k] = stats.get(k, 0) + v
 
+    def go_all(cases, chunk):
+        # small chunks bound the cost of restarting the harness after a sanitizer abort; once enough concrete
+        # failing inputs are on record the verdict is settled and the remaining cases are skipped
+        for i in range(0, len(cases), chunk):
+            if len([v for v in chk.violations if not v[2]]) >= 6:
+                chk.extra["stopped_early"] = True
+                return
+            go(cases[i:i + chunk])
+
     quick = chk.tier == "quick"
     go([["tail"]])
     ex = exhaustive_cases(chk.tier, rng)
     chk.extra["exhaustive_cases"] = len(ex)
-    CH = 20000
-    for i in range(0, len(ex), CH):
-        go(ex[i:i + CH])
+    go_all(ex[:200], 200)
+    go_all(ex[200:], 4000)
     nrand = 2500 if quick else 60000
     rc = [random_case(rng, 30) for _ in range(nrand)]
-    for i in range(0, len(rc), CH):
-        go(rc[i:i + CH])
+    go_all(rc[:300], 300)
+    go_all(rc[300:], 3000)
     nmut = 1500 if quick else 30000
     mc = [mutated_case(rng) for _ in range(nmut)]
-    for i in range(0, len(mc), CH):
-        go(mc[i:i + CH])
+    go_all(mc[:300], 300)
+    go_all(mc[300:], 2000)
     for p in problems:
         # a theorem / generated table no longer checks: the run above was the search for a concrete failing input
         if not (stats.get("spec", 0) + stats.get("fault", 0)):
